@@ -98,6 +98,12 @@ const HAND: &[(&str, &str)] = &[
         (func (export "shuffled") (result i32) v128.const i8x16 0 1 2 3 4 5 6 7 8 9 10 11 12 13 14 15 v128.const i8x16 16 17 18 19 20 21 22 23 24 25 26 27 28 29 30 31
             i8x16.shuffle 31 30 29 28 27 26 25 24 7 6 5 4 3 2 1 0 i32x4.extract_lane 0))"#),
     // atomic accesses trap on an unaligned address where their plain counterparts do not: every width of load / store / rmw, aligned and unaligned
+    // data.drop / memory.init on ACTIVE segments only (legal: the data-count section is required although no segment is passive); the round trip must stay instantiable
+    ("active-segments-with-data-drop", r#"(module (memory (export "m0") 1 1) (data (i32.const 8) "abcd") (data (i32.const 100) "xyz")
+        (func (export "drop0") data.drop 0)
+        (func (export "init_len0") i32.const 0 i32.const 0 i32.const 0 memory.init 1)
+        (func (export "init_active_traps") i32.const 0 i32.const 0 i32.const 1 memory.init 1)
+        (func (export "peek") (result i32) i32.const 8 i32.load))"#),
     ("atomics-unaligned", r#"(module (memory (export "m0") 1 1)
         (func (export "i32_atomic_load_unaligned") (result i32) i32.const 2 i32.atomic.load)
         (func (export "i32_atomic_load_aligned") (result i32) i32.const 8 i32.atomic.load)
